@@ -18,7 +18,8 @@
 package compressor
 
 import (
-	"fmt"
+	"bytes"
+	"io"
 
 	"github.com/pierrec/lz4/v4"
 )
@@ -27,29 +28,21 @@ type Lz4 struct {
 }
 
 func (l *Lz4) Compress(data []byte) ([]byte, error) {
-
-	buffer := make([]byte, lz4.CompressBlockBound(len(data)))
-
-	var compressor lz4.Compressor
-
-	n, err := compressor.CompressBlock(data, buffer)
-	if err != nil {
+	// frame format: also represents empty and incompressible input, and carries what
+	// Decompress needs to size its output
+	var buf bytes.Buffer
+	w := lz4.NewWriter(&buf)
+	if _, err := w.Write(data); err != nil {
 		return nil, err
 	}
-	if n >= len(data) {
-		return nil, fmt.Errorf("`%s` is not compressible", string(data))
+	if err := w.Close(); err != nil {
+		return nil, err
 	}
-
-	return buffer[:n], nil
+	return buf.Bytes(), nil
 }
 
 func (l *Lz4) Decompress(in []byte) ([]byte, error) {
-	out := make([]byte, 100*len(in))
-	n, err := lz4.UncompressBlock(in, out)
-	if err != nil {
-		return nil, err
-	}
-	return out[:n], nil
+	return io.ReadAll(lz4.NewReader(bytes.NewReader(in)))
 }
 
 func (l *Lz4) GetCompressorType() CompressorType {
